@@ -1,15 +1,7 @@
 (* C12 proofs, part 3: the theorems of Props.v in their final form (model level, concrete rounding f64r),
    and the link between Check.check_case and the interval checker. *)
-From VF Require Import Common.Base C12.Model C12.Spec C12.Proofs C12.Proofs2 C12.Interval C12.IntervalProofs C12.Check.
+From VF Require Import Common.Base C12.Model C12.Spec C12.Proofs C12.Proofs2 C12.F64 C12.Interval C12.IntervalProofs C12.Check.
 Local Open Scope Z_scope.
-
-Lemma f64r_gap g x y : 0 < g -> x + g < y -> f64r g x < f64r g y.
-Proof. intros Hg H. pose proof (f64r_near g x Hg). pose proof (f64r_near g y Hg). lia. Qed.
-
-Lemma f64r_lt_inv g x y : 0 < g -> f64r g x < f64r g y -> x < y.
-Proof.
-  intros Hg H. destruct (Z.lt_ge_cases x y) as [|Hge]; auto. pose proof (f64r_mono g y x Hg Hge). lia.
-Qed.
 
 (* outputs of a model step in a reachable state = outputs of the reference step *)
 Lemma reachable_step fl defttl tops now o : ops_wf tops -> op_wf o ->
@@ -21,33 +13,53 @@ Proof.
   apply (step_refines fl defttl _ _ now o HR Ho).
 Qed.
 
-Theorem get_live_generic fl defttl (fl_mono : forall x y, x <= y -> fl x <= fl y) tops now k :
+Theorem get_live_generic fl defttl (fl_mono : forall x y, x <= y -> fl x <= fl y)
+  (fl_neg : forall x, x < 0 -> fl x < 0) tops now k :
   times_ok (tops ++ [(now, OGet k)]) -> ops_wf tops ->
   let s := fst (mrun fl defttl st0 tops) in
   let h := combine tops (snd (mrun fl defttl st0 tops)) in
-  (forall v d, snd (mstep fl defttl s now (OGet k)) = OutGet (Some (v, d)) ->
-               last_stored defttl k h = Some (v, d) /\ (d = 0 \/ now <= d)) /\
-  (forall v d, last_stored defttl k h = Some (v, d) -> (d = 0 \/ fl now < fl d) ->
-               snd (mstep fl defttl s now (OGet k)) = OutGet (Some (v, d))).
+  (forall v sd, snd (mstep fl defttl s now (OGet k)) = OutGet (Some (v, sd)) ->
+     exists d, last_stored defttl k h = Some (v, d) /\ sd = shown d /\ (d <= 0 \/ now <= d)) /\
+  (forall v d, last_stored defttl k h = Some (v, d) -> (d <= 0 \/ fl now < fl d) ->
+               snd (mstep fl defttl s now (OGet k)) = OutGet (Some (v, shown d))).
 Proof.
   intros Ht Hwf. cbv zeta. rewrite (refines fl defttl tops Hwf).
   rewrite (reachable_step fl defttl tops now (OGet k) Hwf I).
-  exact (get_live fl defttl fl_mono tops now k Ht Hwf).
+  exact (get_live fl defttl fl_mono fl_neg tops now k Ht Hwf).
 Qed.
 
-Theorem get_live_f64r g defttl tops now k : 0 < g ->
+Theorem get_live_f64 defttl tops now k :
   times_ok (tops ++ [(now, OGet k)]) -> ops_wf tops ->
-  let fl := f64r g in
-  let s := fst (mrun fl defttl st0 tops) in
-  let h := combine tops (snd (mrun fl defttl st0 tops)) in
-  (forall v d, snd (mstep fl defttl s now (OGet k)) = OutGet (Some (v, d)) ->
-               last_stored defttl k h = Some (v, d) /\ (d = 0 \/ now <= d)) /\
-  (forall v d, last_stored defttl k h = Some (v, d) -> (d = 0 \/ now + g < d) ->
-               snd (mstep fl defttl s now (OGet k)) = OutGet (Some (v, d))).
+  let s := fst (mrun f64 defttl st0 tops) in
+  let h := combine tops (snd (mrun f64 defttl st0 tops)) in
+  (forall v sd, snd (mstep f64 defttl s now (OGet k)) = OutGet (Some (v, sd)) ->
+     exists d, last_stored defttl k h = Some (v, d) /\ sd = shown d /\ (d <= 0 \/ now <= d)) /\
+  (forall v d, last_stored defttl k h = Some (v, d) -> (d <= 0 \/ now + 1024 < d) ->
+               snd (mstep f64 defttl s now (OGet k)) = OutGet (Some (v, shown d))).
 Proof.
-  intros Hg Ht Hwf. cbv zeta.
-  destruct (get_live_generic (f64r g) defttl (fun x y => f64r_mono g x y Hg) tops now k Ht Hwf) as [H1 H2].
-  split; [exact H1|]. intros v d Hl [Hd|Hd]; apply H2; auto. right. now apply f64r_gap.
+  intros Ht Hwf. cbv zeta.
+  destruct (get_live_generic f64 defttl f64_mono f64_negative tops now k Ht Hwf) as [H1 H2].
+  split; [exact H1|]. intros v d Hl [Hd|Hd]; apply H2; auto. right. now apply f64_gap.
+Qed.
+
+(* a deadline that wrapped negative: the entry behaves as one without expiry *)
+Theorem wrap_negative defttl now ttl x : eff_ttl defttl ttl = Some x -> M63 <= now + x < M64 ->
+  new_expire defttl now ttl = now + x - M64 /\ new_expire defttl now ttl < 0.
+Proof.
+  intros E H. unfold new_expire. rewrite E. pose proof M64_M63. pose proof M63_pos.
+  rewrite wrap64_once by lia. lia.
+Qed.
+
+Theorem wrapped_never_expires fl (fl_neg : forall x, x < 0 -> fl x < 0) defttl s k v d :
+  Inv fl s -> m_get (member s) k = Some (v, d) -> d < 0 ->
+  forall now, mstep fl defttl s now (OGet k) = (s, OutGet (Some (v, 0))) /\
+              m_get (member (m_sweep fl s now)) k = Some (v, d).
+Proof.
+  intros HI Hg Hd now. split.
+  - cbn [mstep]. unfold m_get_op. rewrite Hg. unfold expired, shown.
+    destruct (Z.ltb_spec 0 d); [lia|]. reflexivity.
+  - rewrite (sweep_exact fl s now k HI), Hg. unfold swept.
+    pose proof (fl_neg d Hd). destruct (Z.leb_spec 0 (fl d)); [lia|]. now rewrite andb_false_r.
 Qed.
 
 Theorem untimed_survive_reachable fl defttl tops now k v : ops_wf tops ->
@@ -86,20 +98,18 @@ Proof.
   - split; [reflexivity|discriminate].
 Qed.
 
-Theorem count_sweep_f64r g defttl tops now : 0 < g -> times_ok tops -> ops_wf tops ->
-  let fl := f64r g in
-  let s := fst (mrun fl defttl st0 tops) in
-  let s' := m_sweep fl s now in
-  snd (mstep fl defttl s now OCount) = OutCount (length (member s)) /\
-  (forall k v d, m_get (member s') k = Some (v, d) -> m_get (member s) k = Some (v, d) /\ (d = 0 \/ now < d)) /\
-  (forall k v d, m_get (member s) k = Some (v, d) -> d = 0 \/ now + g < d -> m_get (member s') k = Some (v, d)).
+Theorem count_sweep_f64 defttl tops now : ops_wf tops ->
+  let s := fst (mrun f64 defttl st0 tops) in
+  let s' := m_sweep f64 s now in
+  snd (mstep f64 defttl s now OCount) = OutCount (length (member s)) /\
+  (forall k v d, m_get (member s') k = Some (v, d) -> m_get (member s) k = Some (v, d) /\ (d <= 0 \/ now < d)) /\
+  (forall k v d, m_get (member s) k = Some (v, d) -> d <= 0 \/ now + 1024 < d -> m_get (member s') k = Some (v, d)).
 Proof.
-  intros Hg Ht Hwf. cbv zeta.
-  destruct (count_sweep (f64r g) defttl (fun x y => f64r_mono g x y Hg) (fun x => f64r_nonneg g x Hg) tops now Ht Hwf)
-    as (H1 & H2 & H3).
+  intros Hwf. cbv zeta.
+  destruct (count_sweep f64 defttl f64_negative f64_nonneg tops now Hwf) as (H1 & H2 & H3).
   split; [exact H1|split].
-  - intros k v d H. destruct (H2 k v d H) as [Ha [Hb|Hb]]; split; auto. right. eapply f64r_lt_inv; eauto.
-  - intros k v d H [Hd|Hd]; apply H3; auto. right. now apply f64r_gap.
+  - intros k v d H. destruct (H2 k v d H) as [Ha [Hb|Hb]]; split; auto. right. now apply f64_lt_inv.
+  - intros k v d H [Hd|Hd]; apply H3; auto. right. now apply f64_gap.
 Qed.
 
 Theorem roundtrip_reachable fl defttl tops : ops_wf tops ->
@@ -126,25 +136,22 @@ Proof.
   intros k. rewrite member_load. now apply get_s_load_gen.
 Qed.
 
-Theorem f64r_round g : 0 < g ->
-  (forall x y, x <= y -> f64r g x <= f64r g y) /\
-  (forall x, - g <= 2 * (f64r g x - x) <= g) /\
-  (forall x, 0 <= x -> 0 <= f64r g x).
-Proof.
-  intros Hg. split; [|split]; intros.
-  - now apply f64r_mono.
-  - now apply f64r_near.
-  - now apply f64r_nonneg.
-Qed.
+Theorem f64_round :
+  (forall x y, x <= y -> f64 x <= f64 y) /\
+  (forall x, - 1024 <= 2 * (f64 x - x) <= 1024) /\
+  (forall x, 0 <= x -> 0 <= f64 x) /\
+  (forall x, x < 0 -> f64 x < 0).
+Proof. split; [exact f64_mono|split; [exact f64_near|split; [exact f64_nonneg|exact f64_negative]]]. Qed.
 
-Theorem admissible_complete_f64r g defttl tr : 0 < g ->
-  (exists ts, within tr ts /\ spec_outputs (f64r g) defttl tr ts = observed tr) ->
-  admissible_b g defttl tr = true.
+Theorem admissible_complete_f64 defttl tr :
+  (exists ts, within tr ts /\ spec_outputs f64 defttl tr ts = observed tr) ->
+  admissible_b 1024 defttl tr = true.
 Proof.
-  intros Hg. apply (admissible_complete (f64r g) g defttl).
-  - intros x y. now apply f64r_mono.
-  - intros x. now apply f64r_nonneg.
-  - intros x. now apply f64r_near.
+  apply (admissible_complete f64 1024 defttl).
+  - exact f64_mono.
+  - exact f64_nonneg.
+  - exact f64_negative.
+  - exact f64_near.
 Qed.
 
 (* ---------- Check.check_case reports kind 2 exactly for inadmissible traces ---------- *)
@@ -172,6 +179,6 @@ Proof.
   destruct (adm_first g defttl [] (map to_tstep (map (reb_step t0) steps)) 0) as [i|].
   - split; [reflexivity|]. intros _. rewrite Nat.add_comm, Nat.mod_add by lia. reflexivity.
   - split; [|discriminate]. intros H. exfalso. revert H. apply scan_kind01.
-    intros s x. unfold model_step. destruct (mstep (f64r g) defttl s (s_tw x) (s_op x)) as [s' o]. simpl.
+    intros s x. unfold model_step. destruct (mstep f64 defttl s (s_tw x) (s_op x)) as [s' o]. simpl.
     match goal with |- context [if ?c then _ else _] => destruct c end; auto.
 Qed.
